@@ -91,6 +91,8 @@ def main(argv=None):
                  msg="exception escaped the check; re-run the check to reproduce")
         chk.cap("aborted by exception")
         chk.nontriv("aborted-1"); chk.nontriv("aborted-2"); chk.count("eval_aborted")
+        if not chk.samples:
+            chk.sample({"aborted_by": "%s: %s" % (type(e).__name__, str(e)[:200]), "where": where})
         try:
             chk.finish()
         except Broken as e2:
